@@ -1,9 +1,9 @@
 CONSTANTS
   MaxCalls = 5
   HeomResets = TRUE
-  RestoreOnError = TRUE
+  RestoreOnError = FALSE
   NefRecomputes = TRUE
-  NrefPersists = TRUE
+  NrefPersists = FALSE
 SPECIFICATION Spec
 CONSTRAINT Bounded
 INVARIANT Determinacy
